@@ -319,6 +319,10 @@ func TestC13(t *testing.T) {
 		cfg.SecureConfig = &plugin.SecureConfig{Checksum: sum, Hash: newHash(p.Hash)}
 		cl := plugin.NewClient(cfg)
 		_, err := cl.Start()
+		if err != nil {
+			// a client that was refused is asked again (Client() does the same): nothing may be launched then either
+			cl.Start()
+		}
 		o.Err = errStr(err)
 		o.IsMismatch = errors.Is(err, plugin.ErrChecksumsDoNotMatch) || (err != nil && strings.Contains(err.Error(), plugin.ErrChecksumsDoNotMatch.Error()))
 		o.IsNoChecksum = err != nil && strings.Contains(err.Error(), plugin.ErrSecureConfigNoChecksum.Error())
